@@ -256,6 +256,11 @@ func (r *Run) writeWitness(key, what string, witness any) string {
 	return path
 }
 
+// SaveWitness writes a history that is not a violation (e.g. one the oracle could not decide) next to the replay files and returns its path.
+func (r *Run) SaveWitness(name, what string, witness any) string {
+	return r.writeWitness("undecided-"+name, what, witness)
+}
+
 // Violations returns the number of (non-known) violations so far.
 func (r *Run) Violations() int { r.mu.Lock(); defer r.mu.Unlock(); return r.violN }
 
